@@ -38,9 +38,10 @@ func (pass *AddFields) processObject(_ *Visitor, _ *ast.Schema, object ast.Objec
 			continue
 		}
 
-		field.AddToPassesTrail("AddFields[created]")
+		newField := field.DeepCopy()
+		newField.AddToPassesTrail("AddFields[created]")
 
-		object.Type.Struct.Fields = append(object.Type.Struct.Fields, field)
+		object.Type.Struct.Fields = append(object.Type.Struct.Fields, newField)
 	}
 
 	return object, nil
